@@ -35,7 +35,7 @@ CHECKS = {
  "C19": {
   "text": "Every result produced for the scenarios of all generators, the random generator and the dedicated family Gen_WF (1e308 magnitudes, denormals, name-dropping collisions, include labels that exist / sort first, histogram_quantile over two metrics, empty results) is validated by TLC against the well-formedness clauses of QueryTrace.tla.",
   "design_ref": "DESIGN.md §6 C19",
-  "note": "Trusted: byte-order ranks of label names/values computed by the harness; raw result order is logged unmodified.",
+  "note": "Trusted: byte-order ranks of label names/values computed by the harness; raw result order is logged unmodified. Gen_WF and a fifth of the other scenarios are also run through the distributed engine.",
   "technique": "trace validation by TLC of recorded results against the ResultWF clauses of QueryTrace.tla",
  },
  "C08": {
@@ -51,9 +51,9 @@ CHECKS = {
   "technique": "exhaustive TLC model checking of Optimizer.tla + replay of the enumerated pairs under all optimizer sets + trace validation by TLC (SessionTrace)",
  },
  "C10": {
-  "text": "Distribute.tla transcribes the optimizer's bottom-up rewrite over PromQLRef; TLC checks for every assignment of the series to the engines and a 21-plan basket that the rewritten plan denotes the central result; triples replayed through NewDistributedEngine over NewLocalEngine partitions against one engine over the union, plus general/random scenarios under random partitions; TLC validates SessionTrace.tla.",
+  "text": "Distribute.tla transcribes the optimizer's bottom-up rewrite over PromQLRef; TLC checks for every assignment of the series to the engines and a 29-plan basket (incl. nests of aggregations) that the rewritten plan denotes the central result; triples replayed through NewDistributedEngine over NewLocalEngine partitions against one engine over the union, plus general/random scenarios under random partitions; TLC validates SessionTrace.tla.",
   "design_ref": "DESIGN.md §6 C10",
-  "note": "Trusted: local queryable = union (fragments left local are not misreported); comparator classes.",
+  "note": "Trusted: local queryable = union (fragments left local are not misreported); comparator classes. General, random, histogram (Gen_WF) scenarios and - with the fallback enabled on every engine - the constructs the engine does not support (Gen_Fallback) are replayed too.",
   "technique": "exhaustive TLC model checking of Distribute.tla + replay through the distributed engine + trace validation by TLC (SessionTrace)",
  },
  "C11": {
@@ -71,7 +71,7 @@ CHECKS = {
  "C20": {
   "text": "TLC simulation of Session.tla produces histories (12/30/50 operations: executions of 14 queries incl. failing, fallback, cancelled; appends of samples/series/markers/gaps; closes) replayed on one engine and one growing storage; after every operation all earlier results are compared with their deep snapshots and each execution with a fresh engine; TLC validates SessionTrace.tla (memo per data version; ReturnedResultsImmutable).",
   "design_ref": "DESIGN.md §6 C20",
-  "note": "Trusted: deep snapshots taken by the harness at return time; random walks, not exhaustive.",
+  "note": "Trusted: deep snapshots taken by the harness at return time; random walks, not exhaustive. Windows with and without a per-query lookback; the long-lived engine is a plain engine or a distributed engine over long-lived local engines (compared with a freshly built one of the same kind).",
   "technique": "TLC-simulated histories of Session.tla replayed into one engine instance + trace validation by TLC (SessionTrace)",
  },
  "C12": {
@@ -84,28 +84,28 @@ CHECKS = {
   "text": "Fault enumeration bound to ExecTrace.tla: a runtime panic injected at every storage callback index k reached by the fault-free run, on whichever goroutine evaluates it, for plan shapes covering every operator (Gen_Fault.tla), in child processes; TLC validates PanicSurfaces / ExecReturns / no ProcessDead on the recorded life-cycle events. Crashes on extreme parameters / degenerate data found by the other checks' replays are attributed here as ProcessDead.",
   "design_ref": "DESIGN.md §6 C13",
   "note": "Trusted: the child-process supervisor (a dead child identifies its scenario), the instrumented storage.",
-  "technique": "fault enumeration (panic at k-th storage callback) in child processes + trace validation by TLC (ExecTrace)",
+  "technique": "fault enumeration (panic at k-th storage callback, also with lagging consumers; extreme parameters) in child processes + trace validation by TLC (ExecTrace, QueryTrace) + TLC model checking of Exec.tla",
   "category": "fault_enumeration",
  },
  "C14": {
   "text": "Fault enumeration bound to ExecTrace.tla: cancellation inside the k-th storage callback for every k, a callback that blocks until cancelled, Query.Cancel() from another goroutine at seeded instants, against a context-honouring storage, for plan shapes covering every operator incl. distributed; TLC validates ExecReturns (5 s), CancelFinal (context error or the complete fault-free result) and NoLeak (goroutine census after Close).",
   "design_ref": "DESIGN.md §6 C14",
   "note": "Trusted: goroutine census via runtime.NumGoroutine with 3 s grace; interleavings are those the scheduler produces under the injected faults (not exhaustive).",
-  "technique": "fault enumeration (cancel / block at k-th storage callback, Cancel() races) + trace validation by TLC (ExecTrace)",
+  "technique": "fault enumeration (cancel / block at k-th storage callback; Cancel(), Close() and deadlines at seeded instants; cancellation at every pass of every scheduling point, hook H2) + trace validation by TLC (ExecTrace) + TLC model checking of Exec.tla incl. liveness",
   "category": "fault_enumeration",
  },
  "C15": {
   "text": "Fault enumeration bound to ExecTrace.tla: a storage error at every failing-capable callback index k (Querier(), SeriesSet.Err after the k-th Next, iterator Seek/Next with Err) for plan shapes covering every operator incl. distributed; TLC validates ErrorSurfaces (errors.Is(result.Err, injected)).",
   "design_ref": "DESIGN.md §6 C15",
-  "note": "Trusted: the instrumented storage; single faults (pairs of faults on different shards are in the thorough tier's backlog).",
-  "technique": "fault enumeration (error at k-th storage interaction) + trace validation by TLC (ExecTrace)",
+  "note": "Trusted: the instrumented storage. Faults: one failing callback (err), every callback from the k-th on (errdown: all shards fail in one round), and err with lagging consumers (producers meet the fault with full buffers); 1, 2 and 4 shards; Exec.tla is model-checked with up to two faults and a negative control.",
+  "technique": "fault enumeration (error at the k-th storage interaction / from the k-th on / with lagging consumers) + trace validation by TLC (ExecTrace) + TLC model checking of Exec.tla",
   "category": "fault_enumeration",
  },
  "C17": {
   "text": "The storage logs querier open/close in real order around create / Exec start / Exec return; for every outcome (normal, error, panic, cancel, block at every k) TLC validates QuerierBeforeExec, QuerierAfterReturn, QuerierClosedOnce and DataUnmodified (the storage hands out the same label slices on every call and compares deep snapshots) of ExecTrace.tla.",
   "design_ref": "DESIGN.md §6 C17",
   "note": "Trusted: the storage's own event log (global sequence numbers).",
-  "technique": "fault enumeration over all outcomes + trace validation by TLC of querier life-cycle events (ExecTrace)",
+  "technique": "fault enumeration over all outcomes + trace validation by TLC of querier life-cycle events (ExecTrace) + TLC model checking of the querier life cycle in Exec.tla (with a negative control)",
   "category": "fault_enumeration",
  },
  "C02": {
